@@ -55,12 +55,6 @@ func pruneNulls(n *lazyNode) {
 
 	if err == nil {
 		pruneDocNulls(sub)
-	} else {
-		ary, err := n.intoAry()
-
-		if err == nil {
-			pruneAryNulls(ary)
-		}
 	}
 }
 
@@ -74,21 +68,6 @@ func pruneDocNulls(doc *partialDoc) *partialDoc {
 	}
 
 	return doc
-}
-
-func pruneAryNulls(ary *partialArray) *partialArray {
-	newAry := []*lazyNode{}
-
-	for _, v := range *ary {
-		if v != nil {
-			pruneNulls(v)
-		}
-		newAry = append(newAry, v)
-	}
-
-	*ary = newAry
-
-	return ary
 }
 
 var ErrBadJSONDoc = fmt.Errorf("Invalid JSON Document")
@@ -147,8 +126,6 @@ func doMergePatch(docData, patchData []byte, mergeMerge bool) ([]byte, error) {
 			if patchErr != nil {
 				return nil, ErrBadJSONPatch
 			}
-
-			pruneAryNulls(patchAry)
 
 			out, patchErr := json.Marshal(patchAry)
 
